@@ -1570,13 +1570,19 @@ def _inline_temps_in_function(fnode):
             n_done += 1
 
 
-def inline_adjacent_temps(repo, rebuild):
-    """Applied to every tree, the reference one included: the rules see `return E` / `if E:` whether or not the code names E first."""
+def inline_adjacent_temps(repo, rebuild, only_keys=None):
+    """Applied to every tree, the reference one included: the rules see `return E` / `if E:` whether or not the code names E first.
+    With `only_keys`, only the functions with these keys are treated (the unlisted helpers, before they are expanded)."""
     changed = set()
     total = 0
+    only_nodes = None
+    if only_keys is not None:
+        only_nodes = {id(f.node) for m in repo.modules.values() for f in m.all_functions() if f.key in only_keys}
     for rel, m in repo.modules.items():
         n = 0
         for f in [x for x in ast.walk(m.tree) if isinstance(x, _FUNC)]:
+            if only_nodes is not None and id(f) not in only_nodes:
+                continue
             # outermost functions only (nested ones are handled as part of them)
             p = getattr(f, "_parent", None)
             nested = False
@@ -1585,7 +1591,7 @@ def inline_adjacent_temps(repo, rebuild):
                     nested = True
                     break
                 p = getattr(p, "_parent", None)
-            if not nested:
+            if not nested or only_nodes is not None:
                 n += _inline_temps_in_function(f)
         if n:
             ast.fix_missing_locations(m.tree)
@@ -2395,6 +2401,10 @@ def normalize(repo, rebuild):
 
     if lower_dispatch_tables(repo, rebuild):
         notes.append("dispatch table(s) over constant keys lowered to if / elif chains")
+    # temporaries first: a helper of the form `t = E; return f(t)` is a single expression afterwards and can then be expanded even where
+    # statements cannot be placed (inside a comprehension, in the second operand of `and`)
+    kf0 = set(known["functions"])
+    inline_adjacent_temps(repo, rebuild, only_keys={f.key for m in repo.modules.values() for f in m.all_functions() if f.key not in kf0})
     # -- helpers ------------------------------------------------------------------------------------------------------
     kf = set(known["functions"])
     for _round in range(4):
